@@ -44,7 +44,7 @@ def specView (s : Spec) : List (Int × Option Val) := s.map (fun e => (e.1, some
 def hasK (s : Spec) (k : Int) : Bool := s.any (fun e => e.1 == k)
 
 /-- the histories the B-tree layer can produce (C17): one open transaction at a time; add only an absent key;
-update/remove only a present key; the item handed to `tracker.Remove` is some present item -/
+update/remove only a present key -/
 def legalFrom (s : SpecSt) : List Op → Bool
   | [] => true
   | op :: rest =>
@@ -52,7 +52,7 @@ def legalFrom (s : SpecSt) : List Op → Bool
       | .begin, none => true
       | .add k _, some w => !hasK w k
       | .update k _, some w => hasK w k
-      | .remove k via, some w => hasK w k && hasK w via
+      | .remove k _, some w => hasK w k
       | .commit, some _ => true
       | .rollback, some _ => true
       | _, _ => false) && legalFrom (s.apply op) rest
@@ -587,6 +587,7 @@ theorem remove_step {s : St} {w : Txn} {sw : Spec} {hw hr : Bool} (k via : Int)
       WInv (s.remove w k via) w' (sw.filter (fun e => e.1 != k)) hw true := by
   obtain ⟨slot, _, hmem, hkey⟩ := findKey_of_hasK hW.good.1 hleg
   simp only [St.remove]
+  generalize (if s.legacyRemove = true then via else k) = handedKey
   refine ⟨_, rfl, trivial, trivial, trivial, trivial, trivial, ?_⟩
   exact
     { good := ⟨view_filter _ _ hW.good.1, fun z hz => hW.good.2.1 z (List.mem_filter.1 hz).1,
@@ -618,7 +619,7 @@ def opLegal (s : SpecSt) (op : Op) : Bool :=
   | .begin, none => true
   | .add k _, some w => !hasK w k
   | .update k _, some w => hasK w k
-  | .remove k via, some w => hasK w k && hasK w via
+  | .remove k _, some w => hasK w k
   | .commit, some _ => true
   | .rollback, some _ => true
   | _, _ => false
@@ -701,9 +702,7 @@ theorem step_ainv {s : St} {sp : SpecSt} {f : Bool × Bool} (op : Op) (hi : AInv
         exact ⟨by rw [h3]; exact hact, by rw [h4]; exact hntr, by rw [h2]; exact h5, by
           simp only [WorkInv, h1]; exact h6⟩
       | remove k via =>
-        have hk : hasK sw k = true := by
-          have : hasK sw k = true ∧ hasK sw via = true := by simpa [opLegal, hpw] using hl
-          exact this.1
+        have hk : hasK sw k = true := by simpa [opLegal, hpw] using hl
         obtain ⟨w', h1, h2, h3, h4, h5, h6, h7⟩ := remove_step k via hact hntr hwk hk
         simp only [St.apply, hsw, SpecSt.apply, hpw, flagStep]
         exact ⟨by rw [h3]; exact hact, by rw [h4]; exact hntr, by rw [h2, h5, h6]; exact hC, by
@@ -1044,7 +1043,8 @@ theorem run_rel (ops : List Op) : ∀ (s : St) (sp : SpecSt), s.place.active = f
     obtain ⟨h1, h2⟩ := step_rel s sp op hna hr hc
     exact ih _ _ (by rw [h2]; exact hna) h1 hrest
 
-/-! ## stores that are not actively persisted: a skipped commit loses nothing unless a remove handed over another item -/
+/-! ## stores that are not actively persisted: a skipped commit loses nothing (the item handed to `tracker.Remove` is the
+item removed: /repo a8e6b837) -/
 
 /-! ## tracker lookups after set / del -/
 
@@ -1436,12 +1436,21 @@ theorem not_hasKey_of_not_hasK_kv {slots : List Item} {sw : Spec} {k : Int} (h :
     simp [this, hyk]
   rw [hk] at this; cases this
 
-def noInterior : Op → Bool
-  | .remove k via => k == via
-  | _ => true
-
-/-- every remove hands the tracker the item it removes (no removal out of an interior node: the mechanism of C19-F3) -/
-abbrev NoInteriorRemove (ops : List Op) : Prop := ops.all noInterior = true
+/-- no operation changes which `RemoveCurrentItem` the tree has -/
+theorem apply_legacyRemove (s : St) (op : Op) : (s.apply op).legacyRemove = s.legacyRemove := by
+  cases op <;> simp only [St.apply]
+  · rfl
+  · cases s.work <;> rfl
+  · cases hw : s.work with
+    | none => rfl
+    | some w => simp only [St.update]; split <;> rfl
+  · cases s.work <;> rfl
+  · cases hw : s.work with
+    | none => rfl
+    | some w => simp only [St.commit]; split <;> rfl
+  · cases hw : s.work with
+    | none => rfl
+    | some w => simp only [St.rollback]; split <;> rfl
 
 def NAWork (s : St) : Prop :=
   match s.work with
@@ -1454,7 +1463,7 @@ structure NAInv (s : St) (sp : SpecSt) : Prop where
   work : NAWork s
 
 theorem step_nainv (s : St) (sp : SpecSt) (op : Op) (hna : s.place.active = false) (hi : NAInv s sp)
-    (hl : opLegal sp op = true) (hni : noInterior op = true) :
+    (hl : opLegal sp op = true) (hleg : s.legacyRemove = false) :
     NAInv (s.apply op) (sp.apply op) ∧ (s.apply op).place = s.place := by
   obtain ⟨hrel, htree, hwork⟩ := hi
   have hrel' := hrel
@@ -1499,18 +1508,12 @@ theorem step_nainv (s : St) (sp : SpecSt) (op : Op) (hna : s.place.active = fals
           exact ninv_update k x slot hwork hmem hkey
       | remove k via =>
         obtain ⟨r1, r2⟩ := step_rel s sp (.remove k via) hna hrel (fun h => by cases h)
-        have hvia : via = k := by
-          have : (k == via) = true := hni
-          exact (by simpa using this : k = via).symm
-        subst hvia
-        have hk : hasK sw via = true := by
-          have : hasK sw via = true ∧ hasK sw via = true := by simpa [opLegal, hpw] using hl
-          exact this.1
+        have hk : hasK sw k = true := by simpa [opLegal, hpw] using hl
         obtain ⟨slot, hf, hmem, hkey⟩ := findKey_of_hasK_kv hw hk
         refine ⟨⟨r1, ?_, ?_⟩, r2⟩
         · simp only [St.apply, hsw, St.remove]; exact htree
-        · simp only [NAWork, St.apply, hsw, St.remove, hf, trackerRemove_nonactive _ hna]
-          exact ninv_remove via slot hwork hmem hkey
+        · simp only [NAWork, St.apply, hsw, St.remove, hleg, Bool.false_eq_true, if_false, hf, trackerRemove_nonactive _ hna]
+          exact ninv_remove k slot hwork hmem hkey
       | commit =>
         by_cases hne : w.tracker.items = []
         · -- the commit is skipped: nothing was lost, the working tree IS the committed tree
@@ -1539,16 +1542,15 @@ theorem step_nainv (s : St) (sp : SpecSt) (op : Op) (hna : s.place.active = fals
         · simp only [St.apply, hsw, p1, p2]; exact htree
         · simp only [NAWork, St.apply, hsw, p5]
 
-theorem run_nainv (ops : List Op) : ∀ (s : St) (sp : SpecSt), s.place.active = false → NAInv s sp →
-    legalFrom sp ops = true → ops.all noInterior = true →
+theorem run_nainv (ops : List Op) : ∀ (s : St) (sp : SpecSt), s.place.active = false → s.legacyRemove = false → NAInv s sp →
+    legalFrom sp ops = true →
     NAInv (ops.foldl St.apply s) (ops.foldl SpecSt.apply sp) := by
   induction ops with
-  | nil => intro s sp _ hi _ _; exact hi
+  | nil => intro s sp _ _ hi _; exact hi
   | cons op rest ih =>
-    intro s sp hna hi hl hni
+    intro s sp hna hleg hi hl
     rw [legalFrom_cons, Bool.and_eq_true] at hl
-    rw [List.all_cons, Bool.and_eq_true] at hni
-    obtain ⟨h1, h2⟩ := step_nainv s sp op hna hi hl.1 hni.1
-    exact ih _ _ (by rw [h2]; exact hna) h1 hl.2 hni.2
+    obtain ⟨h1, h2⟩ := step_nainv s sp op hna hi hl.1 hleg
+    exact ih _ _ (by rw [h2]; exact hna) (by rw [apply_legacyRemove]; exact hleg) h1 hl.2
 
 end Sop.C19
